@@ -161,6 +161,7 @@ void verif_assert(int c, int id) { if (!c) { printf("REPLAY-ASSERT-FAILED id=%d 
 void verif_observe(unsigned long) {}
 void verif_witness() {}
 void verif_exclude(int, int) {}
+void verif_shared(void *, unsigned long) {}
 void VERIF_ENTRY(void);
 #ifdef VERIF_SETUP
 void VERIF_SETUP(void);
